@@ -43,7 +43,10 @@ CHECKS = {
         "after return or exception is an SMT obligation over all real poses",
         text="Fault enumeration by symbolic execution: every exit point of getBH_level2 between in-place path tiling and reset is reached "
         "by forking on symbolic fault flags; on every path the position/orientation/pixel terms and the identity of parent, children, "
-        "style, excitation and field_func of every involved object are proved unchanged, and a second call is proved term-identical.",
+        "style, excitation and field_func of every involved object are proved unchanged, and a second call is proved term-identical. "
+        "Objects of every registered class (left-handed Tetrahedron, unchecked TriangularMesh) through src.getX with symbolic parameters / pose / "
+        "observer: every entry of the object's __dict__ and the caller's observer array are unchanged on every feasible path (plus a concrete "
+        "trace with 1 / 3 observers, 2-step path and rejected calls).",
         note="Scenes from a committed list (<=3 sources incl. a collection and a class group, 1-2 sensors, path lengths 1..3); local field "
         "functions uninterpreted; SymRot quaternion model; dataframe output and style contents not modelled.",
         design="3/C08",
@@ -157,7 +160,8 @@ CHECKS = {
         text="Bounded symbolic model checking: on every feasible mask path of every wrapper (Cuboid, Cylinder, CylinderSegment incl. the "
         "full-angle routing, Sphere, Tetrahedron, TriangularMesh, Triangle, Circle, Polyline, Dipole) all B and H components are defined for "
         "ALL real inputs of the path - faces, edges, corners, axis, wire, zero excitation are points the solver is free to pick; a "
-        "reachability twin (bare cuboid kernel without the wrapper masks) must be flagged undefined.",
+        "reachability twin (bare cuboid kernel without the wrapper masks) must be flagged undefined. The straight-line part of the vectorised "
+        "elliptic routine celv (case split p<=0 / p>0, set-up before the convergence loop) is defined for kc != 0 and all real p, c, s.",
         note="Real arithmetic (no overflow/underflow/cancellation); iterative elliptic kernels and the cylinder-segment case evaluators are cut with "
         "their argument preconditions as obligations; termination of the elliptic loops and the inside of the triangle kernel are not decided.",
         design="3/C15",
